@@ -37,11 +37,11 @@ def clf_zoo():
         "SlidingWindow-PWC": dict(mk=lambda **k: SlidingWindowClassifier(ParzenWindowClassifier(metric_dict={"gamma": 0.7}, **k),
                                                                          window_size=6, **k), self_proba=True, window=True, c12=False),
         # multi-annotator classifiers: the label vector is given by two annotators (second one with additional gaps)
-        "ALR": dict(mk=lambda **k: AnnotatorLogisticRegression(n_annotators=2, **k), self_proba=True, multi=True, c12=False, only=("C11",)),
+        "ALR": dict(mk=lambda **k: AnnotatorLogisticRegression(n_annotators=2, **k), self_proba=True, multi=True, c12=False, only=("C11", "C13")),
         "AnnotEnsemble-soft": dict(mk=lambda **k: AnnotatorEnsembleClassifier(
             estimators=[("a", ParzenWindowClassifier(metric_dict={"gamma": 0.7}, **{q: v for q, v in k.items() if q != "cost_matrix"})),
                         ("b", ParzenWindowClassifier(metric_dict={"gamma": 0.7}, **{q: v for q, v in k.items() if q != "cost_matrix"}))],
-            voting="soft", **k), self_proba=True, multi=True, c12=False, only=("C11",)),
+            voting="soft", **k), self_proba=True, multi=True, c12=False, only=("C11", "C13")),
     }
     return Z
 
@@ -365,7 +365,9 @@ def run_c13(case, fail):
     if not case.get("reg"):
         y1[rs.rand(n1) < 0.3] = np.nan
         y2[rs.rand(n2) < 0.3] = np.nan
-        if np.isnan(y2).all():
+        if case["t"] % 4 == 3:
+            y2[:] = np.nan                            # the later fit sees no label at all: nothing of the earlier fit may survive
+        elif np.isnan(y2).all():
             y2[0] = 1.0
     a = mk()
     snap = lambda o: {k: (pickle.dumps(v) if not hasattr(v, "get_params") else "est") for k, v in sorted(o.get_params(deep=True).items())}
@@ -375,10 +377,10 @@ def run_c13(case, fail):
         p0 = None
     Xq = (rs.randn(5, d2) * 3).round(2)
     try:
-        a.fit(X1, y1)
+        fit(a, X1, y1, None)
         pred(a, X1[:2])
-        a.fit(X2, y2)
-        b = mk().fit(X2, y2)
+        fit(a, X2, y2, None)
+        b = fit(mk(), X2, y2, None)
         pa, pb = pred(a, Xq), pred(b, Xq)
     except Exception as e:
         fail("C13.refit_raised", f"{type(e).__name__}: {str(e)[:120]}")
